@@ -99,6 +99,8 @@ def run_one(s):
         if r[0] != "ok":
             rec["exc"] = r[1] if len(r) > 1 else "hang"
             rec["msg"] = r[2] if len(r) > 2 else ""
+            if rec["exc"] == "RuntimeError" and "could not find a single" in rec["msg"]:
+                rec["exc"] = "FilterGaveUp"       # the documented safeguard of filtered samplers (20 rounds without a valid point)
             calls.append(rec)
             continue
         pts, mode = r[1]
